@@ -25,8 +25,9 @@ def run(ctx):
                        "1e-3 (see C06)",
                        "preprocess_ts is not part of the statement (its minimum_gap is absolute by documentation)"]
     q = ctx.quick
-    exact = [0.5, 2.0]
-    other = [10.0, 1000.0 / 3.0] if q else [10.0, 1000.0 / 3.0, 1e-3, 7.3, 1e5]
+    # 2^-20 and 1e-6: coordinates in very small units, e.g. Mb instead of bp (added after seed C07-a)
+    exact = [0.5, 2.0, 2.0 ** -20]
+    other = [10.0, 1000.0 / 3.0, 1e-6] if q else [10.0, 1000.0 / 3.0, 1e-6, 1e-3, 7.3, 1e5]
     if not q:
         exact += [2.0 ** 10, 2.0 ** -7]
     mc.scaling_run(ctx, PID, KIND, exact, other)
